@@ -934,6 +934,8 @@ def run_lang(cases, timeout=150):
             p["reinject"] = True
         if c.get("inject2"):
             p["inject2"] = c["inject2"]
+        if c.get("withdraw"):
+            p["withdraw"] = c["withdraw"]
         if c.get("hold"):
             p["hold"] = c["hold"]
         if c.get("model"):
